@@ -1173,7 +1173,7 @@ func casesC18(g *Gen) []*Case {
 	exts := []string{".tw", ".tw.html", "tw", ".t"}
 	for i := 0; i < g.scale(1500, 30000); i++ {
 		ext := g.pick(exts)
-		base := g.pick([]string{"d", "d/sub", "views"})
+		base := g.pick([]string{"d", "d/sub", "views", "d", "views", "."})
 		t := newTree()
 		want := map[string]string{} // name -> content
 		n := 1 + g.n(6)
@@ -1195,6 +1195,9 @@ func casesC18(g *Gen) []*Case {
 				content = `<@reserve("r")>`
 			}
 			p := base + "/" + rel
+			if base == "." {
+				p = rel
+			}
 			if _, dup := t.files[p]; dup {
 				continue
 			}
@@ -1219,6 +1222,10 @@ func casesC18(g *Gen) []*Case {
 			continue
 		}
 		spell := g.pick([]string{base, base + "/", base + "//", "./" + base, "zz/../" + base, base + "/.", "/" + base + "/"})
+		if base == "." {
+			// the working directory itself as the template directory
+			spell = g.pick([]string{".", "./", "zz/..", "././", "zz/../."})
+		}
 		if strings.HasPrefix(spell, "zz/") {
 			t.dirs = append(t.dirs, "zz")
 		}
@@ -1229,7 +1236,7 @@ func casesC18(g *Gen) []*Case {
 			}
 		}
 		sort.Strings(names)
-		ops := []string{opNew(spell, ext, "", false)}
+		ops := []string{opNew(spell, ext, "", g.chance(1, 2))} // debug mode on or off: the same names, the same layouts
 		checks := map[int]func(string) string{0: func(r string) string {
 			if !strings.HasPrefix(r, "NEWOK") {
 				return "loading failed: " + describe(strings.TrimPrefix(r, "NEWERR "))
